@@ -17,7 +17,7 @@ use super::{strong, Ctx, Local, Plain, TypeOps};
 use write_fonts::tables::meta::{DataMapRecord, Meta, Metadata, ScriptLangTag};
 use write_fonts::tables::post::Post;
 use write_fonts::types::Tag;
-use crate::tde::boundary_strings;
+use crate::tde::family_strings as boundary_strings;
 use serde_json::{json, Value};
 use write_fonts::tables::name::{LangTagRecord, Name, NameRecord};
 use write_fonts::types::NameId;
@@ -90,7 +90,7 @@ fn text_case(ctx: &Ctx, reg: &[TypeOps], family: &str, si: usize, form: &str, l:
 pub fn run_text_families(ctx: &Ctx, reg: &[TypeOps], l: &mut Local) {
     ctx.run.bound(
         "post_and_meta_text_families",
-        json!({"strings": "the string alphabet", "post_v2_forms": POST_FORMS, "meta_forms": META_FORMS}),
+        json!({"strings": "the X2 string alphabet + 10 UTF-16 boundary characters and 7 MacRoman boundary characters, each in first / middle / last position (tde::family_strings)", "post_v2_forms": POST_FORMS, "meta_forms": META_FORMS}),
     );
     for si in 0..boundary_strings().len() {
         for form in POST_FORMS {
@@ -121,7 +121,7 @@ pub fn run_family(ctx: &Ctx, reg: &[TypeOps], l: &mut Local) {
     };
     ctx.run.bound(
         "name_family",
-        json!({"platform_encoding_pairs": PAIRS, "strings": "the string alphabet", "forms": FORMS}),
+        json!({"platform_encoding_pairs": PAIRS, "strings": "the X2 string alphabet + 10 UTF-16 boundary characters and 7 MacRoman boundary characters, each in first / middle / last position (tde::family_strings)", "forms": FORMS}),
     );
     for pair in PAIRS {
         for si in 0..boundary_strings().len() {
